@@ -328,8 +328,9 @@ pub struct GenericMutexLockFuture<'a, MutexType: RawMutex, T: 'a> {
 
 // Safety: Futures can be sent between threads as long as the underlying
 // mutex is thread-safe (Sync), which allows to poll/register/unregister from
-// a different thread.
-unsafe impl<'a, MutexType: RawMutex + Sync, T: 'a> Send
+// a different thread. Since the future resolves to a guard which provides
+// access to the value on the thread that polls it, the value must be Send.
+unsafe impl<'a, MutexType: RawMutex + Sync, T: Send + 'a> Send
     for GenericMutexLockFuture<'a, MutexType, T>
 {
 }
